@@ -40,8 +40,9 @@ TY = RW.TY
 
 
 def _is_empty(t: V) -> bool:
+    """the type inference records for an EMPTY container value: List[Any], Set[Any], Dict[Any, Any], DefaultDict[Any, Any]"""
     return isinstance(t, R) and t.kind == "generic" and isinstance(t.fields["args"], K) and isinstance(t.fields["args"].v, tuple) and \
-        t.fields["args"].v != () and all(a == ANY for a in t.fields["args"].v)
+        t.fields["args"].v != () and all(a == ANY for a in t.fields["args"].v) and t.fields["origin"].v in RW.EMPTY_KINDS
 
 
 def _origin(t: V) -> Optional[str]:
